@@ -15,13 +15,16 @@ if [ ! -d $WT ]; then git -C /repo worktree add -q --detach $WT db9fd12 || exit 
 cd $WT && git checkout -q --detach db9fd12 && git checkout -q -- . && git clean -fdq
 DEMOS=$(ls $SRC | grep -E '^demo.*\.rs$')
 [ -z "$DEMOS" ] && { echo "no demo .rs in $SRC"; exit 2; }
+mkdir -p $WT/$DEST
 for d in $DEMOS; do cp $SRC/$d $WT/$DEST/; done
 NAMES=$(for d in $DEMOS; do echo -n "--test ${d%.rs} "; done)
-PKG=""; case $DEST in core/*) PKG="-p rink-core --features bundle-files";; cli/*) PKG="-p rink";; sandbox/*) PKG="-p rink-sandbox";; esac
+RUNNER="cargo test --offline"
+if [ "${MODE:-test}" = example ]; then NAMES=$(for d in $DEMOS; do echo -n "--example ${d%.rs} "; done); RUNNER="cargo run --offline"; fi
+PKG=""; case $DEST in core/*) PKG="-p rink-core --features ${FEATURES:-bundle-files}";; cli/*) PKG="-p rink";; sandbox/*) PKG="-p rink-sandbox";; esac
 {
-echo "== 1. unchanged tree, demo"; cargo test --offline $PKG $NAMES 2>&1 | grep -E "^test result|FAILED|panicked|error(\[|:)" | head -20
+echo "== 1. unchanged tree, demo"; if [ "${MODE:-test}" = example ]; then $RUNNER $PKG $NAMES > $LOG.ex 2>&1; echo "exit=$?" ; tail -3 $LOG.ex; else cargo test --offline $PKG $NAMES 2>&1 | grep -E "^test result|FAILED|panicked|error(\[|:)" | head -20; fi
 } > $LOG
-grep -q "test result: ok" $LOG && ! grep -q "FAILED\|error" $LOG || { echo "$P $K: demo does not pass on the unchanged tree"; tail -5 $LOG; exit 1; }
+{ grep -q "test result: ok" $LOG && ! grep -q "FAILED\|error" $LOG; } || { [ "${MODE:-test}" = example ] && grep -q "exit=0" $LOG; } || { echo "$P $K: demo does not pass on the unchanged tree"; tail -5 $LOG; exit 1; }
 git apply $SRC/patch.diff || { echo "$P $K: patch does not apply"; exit 1; }
 {
 echo "== 2. with change, suite"; for d in $DEMOS; do rm $WT/$DEST/$d; done
@@ -29,8 +32,8 @@ cargo test --workspace --no-fail-fast --offline 2>&1 | grep -E "^test result|FAI
 } > $LOG.suite
 PASSED=$(grep "^test result: ok" $LOG.suite | sed -E 's/.*ok\. ([0-9]+) passed.*/\1/' | paste -sd+ | bc)
 if grep -q "FAILED\|^error" $LOG.suite || [ "$PASSED" != "152" ]; then echo "$P $K: existing suite not green with the change (passed=$PASSED)"; grep -E "FAILED|error" $LOG.suite | head; exit 1; fi
-for d in $DEMOS; do cp $SRC/$d $WT/$DEST/; done
-{ echo "== 3. with change, demo"; cargo test --offline $PKG $NAMES 2>&1 | grep -E "^test result|FAILED|panicked" | head -20; } > $LOG.demo
+mkdir -p $WT/$DEST; for d in $DEMOS; do cp $SRC/$d $WT/$DEST/; done
+{ echo "== 3. with change, demo"; if [ "${MODE:-test}" = example ]; then $RUNNER $PKG $NAMES > $LOG.ex 2>&1; rc=$?; tail -3 $LOG.ex; [ $rc -ne 0 ] && echo "FAILED exit=$rc"; else cargo test --offline $PKG $NAMES 2>&1 | grep -E "^test result|FAILED|panicked" | head -20; fi; } > $LOG.demo
 grep -q "FAILED" $LOG.demo || { echo "$P $K: demo does not fail with the change"; cat $LOG.demo; exit 1; }
 OUT=/verif/seeded/$P-$K; mkdir -p $OUT
 cp $SRC/patch.diff $OUT/; for d in $DEMOS; do cp $SRC/$d $OUT/; done; cp $SRC/notes.md $OUT/notes.md 2>/dev/null
